@@ -83,6 +83,9 @@ class TraceExecutor(Executor):
             self._program_counters[subroutine_id] += 1
         else:
             yield from super()._execute_command(subroutine_id, command)
+        if command.mnemonic in ("qalloc", "qfree"):
+            app_id = self._get_app_id(subroutine_id)
+            self.events.append((command.mnemonic, self._get_register(app_id, command.reg)))
         if command.mnemonic == "ret_reg":
             app_id = self._get_app_id(subroutine_id)
             self.ret_log.append(("reg", str(command.reg), self._shared_memories[app_id].get_register(command.reg)))
